@@ -164,7 +164,8 @@ struct Bus {
 			else if (k == "truncate") { f.bytes.resize(inner); f.corrupted = true; fired["truncate"]++; }
 			else if (k == "extradelim") { f.bytes.insert(f.bytes.begin(), ref::MAGIC); fired["extradelim"]++; }
 		}
-		if (split_at >= 0 && !f.bytes.empty()) { split_at = split_at % (long) f.bytes.size(); fired["chunk"]++; }
+		// the pause falls inside the frame (never before its first byte: frames of one node keep their order on the wire)
+		if (split_at >= 0 && !f.bytes.empty()) { split_at = split_at % (long) f.bytes.size(); if (split_at == 0) split_at = 1; fired["chunk"]++; }
 		if (node >= 0) {
 			uint64_t st = sim::now_us() + delay_us;
 			if (st <= nodes[(size_t) node].last_start_us) { st = nodes[(size_t) node].last_start_us + 1; delay_us = st - sim::now_us(); }
